@@ -119,37 +119,59 @@ func ruleR07a(h *H, rule string) {
 		}
 		persistsOffset, persistsCounter := false, false
 		dbt := namedName(fn.Signature.Recv().Type())
-		ir.Instrs(fn, func(in ssa.Instruction) {
-			ci, ok := in.(ssa.CallInstruction)
-			if !ok || !h.P.CallStaticallyReaches(ci, h.P.MatchPred(batchPut)) {
-				return
-			}
-			f := ci.Common().StaticCallee()
-			if f == nil {
-				return
-			}
-			hasBatch := false
-			for _, a := range ci.Common().Args {
-				if ir.Canon(a) == batch {
-					hasBatch = true
+		// scan ProcessWrite and, recursively, extracted helpers that receive the batch: a
+		// step counts when its success is required for the commit (in a helper: for every
+		// return of the helper that may report success)
+		var scan func(f *ssa.Function, depth int)
+		scan = func(f *ssa.Function, depth int) {
+			requiredFor := func(ci ssa.CallInstruction) bool {
+				if f == fn {
+					sd, _, _ := ir.SuccessDominated(ci, commit)
+					return sd
 				}
+				ok := true
+				ir.Instrs(f, func(in ssa.Instruction) {
+					if ret, isRet := in.(*ssa.Return); isRet && mayReturnNilError(ret) && ir.Canon(ir.ReturnValues(ret)[len(ret.Results)-1]) != ci.(ssa.Value) {
+						if sd, _, _ := ir.SuccessDominated(ci, ret); !sd {
+							ok = false
+						}
+					}
+				})
+				return ok
 			}
-			if !hasBatch {
-				return
-			}
-			if sd, _, _ := ir.SuccessDominated(ci, commit); !sd {
-				return
-			}
-			for _, a := range ci.Common().Args {
-				ca := ir.Canon(a)
-				if offParam != nil && ca == ssa.Value(offParam) && f.Signature.Params().Len() <= 5 && !takesRequest(ci) {
-					persistsOffset = true
+			ir.Instrs(f, func(in ssa.Instruction) {
+				ci, ok := in.(ssa.CallInstruction)
+				if !ok || !h.P.CallStaticallyReaches(ci, h.P.MatchPred(batchPut)) {
+					return
 				}
-				if _, isLoad := isAtomicCallOnField(ca, "Load", "server/kv", dbt, "versionIdTracker"); isLoad {
-					persistsCounter = true
+				g := ci.Common().StaticCallee()
+				if g == nil {
+					return
 				}
-			}
-		})
+				hasBatch := false
+				for _, a := range ci.Common().Args {
+					if ir.CanonX(a) == batch {
+						hasBatch = true
+					}
+				}
+				if !hasBatch || !requiredFor(ci) {
+					return
+				}
+				for _, a := range ci.Common().Args {
+					ca := ir.CanonX(a)
+					if offParam != nil && ca == ssa.Value(offParam) && g.Signature.Params().Len() <= 5 && !takesRequest(ci) {
+						persistsOffset = true
+					}
+					if _, isLoad := isAtomicCallOnField(ir.Canon(a), "Load", "server/kv", dbt, "versionIdTracker"); isLoad {
+						persistsCounter = true
+					}
+				}
+				if depth < 3 && ir.SingleCallSite(g) == ci && g.Blocks != nil {
+					scan(g, depth+1)
+				}
+			})
+		}
+		scan(fn, 0)
 		h.Verdict(persistsOffset, rule, name+": commit offset in the batch", h.pos(commit), "the commit offset is put into the batch before the commit", "the commit offset is not written into the same batch as the effects (a crash between the two leaves them inconsistent: entries are applied twice or skipped on replay)")
 		h.Verdict(persistsCounter, rule, name+": version counter in the batch", h.pos(commit), "the version counter is put into the batch before the commit", "the last version id is not written into the same batch as the effects")
 		// success only after commit
